@@ -200,6 +200,20 @@ func runCheck(repo, prop, tier, speclib string, seed int64, writeEvidence bool, 
 	}
 	for _, o := range rep.Obls {
 		good := o.Status == "discharged" || o.Status == "trivial"
+		// a recorded finding of ANOTHER property on a clause that is tagged for that property only (the function is
+		// verified in this run because other clauses of it serve this property): not this property's business
+		if !good {
+			foreign := false
+			for i := range kf.Findings {
+				f := &kf.Findings[i]
+				if f.Property != prop && matchFinding(&kf, f.Property, o.Name) == f && hasTag(o.Tags, f.Property) && !hasTag(o.Tags, prop) {
+					foreign = true
+				}
+			}
+			if foreign {
+				continue
+			}
+		}
 		if f := matchFinding(&kf, prop, o.Name); f != nil {
 			if good {
 				known = append(known, fmt.Sprintf("STALE (obligation now discharges): %s", f.Obligation))
